@@ -1062,7 +1062,7 @@ class Interp(object):
              "True": True, "False": False, "None": None, "dict": dict, "str": str, "sorted": sorted, "bool": bool,
              "round": lambda x, *a: vn.app("rnd", R(x)), "pow": lambda a, b: _pow(a, b), "reversed": reversed,
              "ValueError": ValueError, "Exception": Exception, "prange": range, "set": set, "any": any, "all": all,
-             "hasattr": _hasattr}
+             "hasattr": _hasattr, "setattr": _setattr}
         if name in b:
             return b[name]
         return self.module_global(m, name)
@@ -1319,6 +1319,13 @@ def _sum(xs, start=0):
 
 def _isinstance(x, t):
     return False
+
+
+def _setattr(obj, name, value):
+    if isinstance(obj, SymObject) and isinstance(name, str):
+        obj._attrs[name] = value
+        return None
+    raise Unsupported("setattr on %r" % type(obj).__name__)
 
 
 def _hasattr(obj, name):
